@@ -76,6 +76,16 @@ def run_session(case, ops=()):
             fs = impl.user_criteria(c2, unit)
             if fs:
                 kw['is_independent'] = fs if len(fs) > 1 else fs[0]
+            if case.get('reuse'):
+                # one criteria list object first handed to a stricter prune of an unrelated dendrogram
+                lst = list(fs)
+                kw['is_independent'] = lst
+                from astrodendro import Dendrogram
+                with warnings.catch_warnings():
+                    warnings.simplefilter('ignore')
+                    oshape = [s_ + 2 for s_ in case['shape']]
+                    Dendrogram.compute((np.arange(int(np.prod(oshape)), dtype=float) * 5 % 7).reshape(oshape)).prune(
+                        min_delta=kw['min_delta'] + 3, min_npix=minn + 2, is_independent=lst)
             before = dict(d.params)
             with warnings.catch_warnings():
                 warnings.simplefilter('ignore')
